@@ -340,7 +340,12 @@ pub fn for_each_subtree_deletion(
 }
 
 /// The alternative separators of the layout dimension (the default gap is one space).
-pub const SEPARATORS: [&str; 9] = ["", "\n", "\r\n", "\t", "// c\n", "/* c */", "/* a /* b */ c */", "/**/", " \n\t "];
+pub const SEPARATORS: [&str; 11] = [
+    "", "\n", "\r\n", "\t", "// c\n", "/* c */", "/* a /* b */ c */", "/**/", " \n\t ",
+    // comment delimiters sharing a character with their neighbour: `/*/` is an opener followed
+    // by `/`, `*/*` a closer followed by `*` (a scanner with overlapping windows miscounts both)
+    "/* a /*/ b */ c */", "/* /* a */* b */",
+];
 
 /// Doc-comment separators (C13): line, block, empty, multi-line, multi-line with a blank
 /// line, nested block, two comments, CRLF.
